@@ -87,6 +87,7 @@ def _gen_chain(rng, tier):
     for _ in range(n): yield next(g)
 _sk = Stream('stack', 'h_layers', mode='modelstack', gen=_gen_stack, nontrivial=lambda c, o: _c07('nontrivial')(c, o), spec_mode='spec')
 _sk.env = {'TV_HINT_GATE': '1'}
+_sk.model_case = lambda case: _c07('strip_vec')(case)      # (C07's stacks may put neighbouring layers into one Vec)
 def _gen_wrapped(rng, tier):
     # stacks with pass-through wrappers (Box, Some, vec![_], reload, and_then(Identity)), `None` layers and empty Vecs inside the
     # and_then tree: their placeholder hints (`Some(OFF)` for a None layer) must not leak into the stack's hint
@@ -189,7 +190,7 @@ PROPERTY = {
     'namespace': 'C08',
     'units': [],
     'required_theorems': ['C08.interest_sound', 'C08.hint_sound', 'C08.stack_interest_sound', 'C08.stack_hint_sound', 'C08.tree_agrees', 'C08.stack_agrees', 'C08.f32_witness',
-                          'C08.env_never_sound', 'C08.env_always_sound_partial', 'C08.f8_witness'],
+                          'C08.env_never_sound', 'C08.env_always_sound_partial', 'C08.f8_witness', 'C08.f33_repaired'],
     'streams': [_st, _sk, _sc, _sw, _th, _envleaf],
     'rule': 'random filter expressions (depth <= 4 quick / 6 thorough) over level thresholds, Targets strings, static closures with/without (honest) hints, context-dependent closures with/without hint and callsite closure, '
             'None/Some, and/or/not, reload and Box wrappers; each evaluated on 7 targets x 5 levels x span/event x 4 field sets in two contexts through the real Filtered layer; non-trivial = at least 2 operators/leaves and >=2 distinct interests. Streams stack / stackchain: the stack and history generators of C07 with the max-level-hint gate switched on in the front end; non-trivial as in C07',
